@@ -339,3 +339,26 @@ def run_rule(run, p, pid):
             run.ob(rid, key + ':' + label, not probs, 'scenario %s, %s: %s' % (sc['name'], tname, '; '.join(probs) or 'one %s of %s against %s' % (
                 meth.split('.')[-1], actual, ref)), fn=td)
     run.floor(rid, n, len(SCENARIOS))
+
+
+def encodings_emitted(p):
+    """[(reference file, encoding the generator detected, encoding= the generated test passes)] in the scenario with files"""
+    sc = [x for x in SCENARIOS if x['name'] == 'files'][0]
+    text, err, refdir = generate(p, sc)
+    if text is None:
+        raise AnalysisError('write_script %s' % err)
+    rb = read_back(text)
+    env = {'cwd': CWD, 'tmpdir': TMP}
+    out = []
+    want = {path: enc for path, kind, enc in sc['files'] if kind == 'text'}
+    for tname, fn in rb['tests'].items():
+        if tname in ('test_no_exception', 'test_exit_code'):
+            continue
+        m, args, kws, lists = _test_parts(fn)
+        try:
+            a = _denote(args[0], env)
+        except ValueError:
+            continue
+        if a in want:
+            out.append((a, want[a], ast.literal_eval(kws['encoding']) if 'encoding' in kws else None))
+    return out
